@@ -48,7 +48,7 @@ type Config struct {
 	UIDValidityGen     func() imap.UIDValidityGenerator
 	StoreFaults        bool // wrap the store builder with the fault-injecting store
 	DBClient           func() db.ClientInterface
-	DBFaults           bool // wrap the default database client with FaultDB (w.DB)
+	DBFaults           bool   // wrap the default database client with FaultDB (w.DB)
 	Dir                string // base directory for this run (data+db dirs are created inside)
 	UUIDSeed           uint64
 	Trace              bool
@@ -84,15 +84,15 @@ type World struct {
 
 // Sess is a client connection with its mirror.
 type Sess struct {
-	W      *World
-	Idx    int
-	Label  string
-	C      *wire.Client
-	M      wire.Mirror
-	User   int // index of the user it logged in as (-1 none)
-	InIdle bool
+	W       *World
+	Idx     int
+	Label   string
+	C       *wire.Client
+	M       wire.Mirror
+	User    int // index of the user it logged in as (-1 none)
+	InIdle  bool
 	IdleTag string
-	Viol   []string // structural violations seen by the mirror
+	Viol    []string // structural violations seen by the mirror
 }
 
 type panicRec struct{ w *World }
